@@ -26,7 +26,7 @@ class CsrDecWorld(World):
     stub_components = ("leaf CSR buses (stub runs)", "mock registers (flat runs)",
                        "CSR initiator (seeded agent)")
     fault_kinds = ("byzantine_cycle", "both_strobes", "unassigned_address", "window_edge_address",
-                   "abort", "gap", "rejected_re_add")
+                   "abort", "gap", "rejected_re_add", "queried_or_elaborated_while_being_populated")
     assumptions = (
         "Amaranth's Python RTL simulator executes the elaborated netlist faithfully",
         "idle subordinates drive zero read data (as the property assumes of well-behaved buses)",
@@ -40,7 +40,17 @@ class CsrDecWorld(World):
 
     # ------------------------------------------------------------------------------------------
     def _gen_tree(self, rng, aw, depth, kind):
-        node = {"t": "dec", "aw": aw, "al": rng.choice([0, 0, 1, 2]), "subs": []}
+        node = {"t": "dec", "aw": aw, "al": rng.choice([0, 0, 1, 2]), "subs": [],
+                "mid": rng.choice(["elab", "patterns", "resources"]) if rng.chance(0.12) else None,
+                "mid_at": rng.below(3)}
+        if rng.chance(0.08) and aw >= 2:
+            # a decoder wrapped around a single subordinate of its own address width
+            sub = {"t": "leaf", "aw": aw} if kind == "stub" else \
+                {"t": "mux", "aw": aw, "regs": [{"w": rng.choice([1, 8, 11]), "acc": "rw", "extra": 0}
+                                                for _ in range(rng.range(1, 3))]}
+            node["subs"].append({"node": sub, "name": None if rng.chance(0.4) else f"w{depth}_all",
+                                 "addr": None, "align_to": None, "readd": 0})
+            return node
         many = depth == 0 and rng.chance(0.25)
         for i in range(rng.range(0, 3) if depth else (rng.range(5, 14) if many else rng.range(1, 4))):
             if aw < 2:
@@ -126,7 +136,17 @@ class CsrDecWorld(World):
         dec = hw.construct(csr.Decoder, addr_width=node["aw"], data_width=dw,
                            alignment=node["al"])
         mods.append(dec)
-        for sc in node["subs"]:
+        for k_, sc in enumerate(node["subs"]):
+            if node.get("mid") and k_ == node.get("mid_at", 0) + 1:
+                # API-order fault: the decoder is elaborated / queried while it is still being
+                # populated; more subordinates are added afterwards
+                if node["mid"] == "elab":
+                    hw.elaborate_once(dec)
+                elif node["mid"] == "patterns":
+                    list(dec.bus.memory_map.window_patterns())
+                else:
+                    list(dec.bus.memory_map.all_resources())
+                counter.append("mid")
             # build the subtree first; skip it entirely if the window is refused
             sub_mods, sub_leaves = [], []
             bus = self._build(sc["node"], dw, sub_mods, sub_leaves, counter)
@@ -170,6 +190,7 @@ class CsrDecWorld(World):
         counter = [0]
         root = self._build(config["tree"], dw, mods, leaves, counter)
         stats.fault("rejected_re_add", counter.count("readd"))
+        stats.fault("queried_or_elaborated_while_being_populated", counter.count("mid"))
         aw = config["tree"]["aw"]
         sim = hw.build_sim(hw.make_top(*mods))
         lw = list(self._leaf_windows(root.memory_map, 0, [l["map"] for l in leaves]))
@@ -293,6 +314,7 @@ class CsrDecWorld(World):
         counter = [0]
         root = self._build(config["tree"], dw, mods, leaves, counter)
         stats.fault("rejected_re_add", counter.count("readd"))
+        stats.fault("queried_or_elaborated_while_being_populated", counter.count("mid"))
         aw = config["tree"]["aw"]
         infos = list(root.memory_map.all_resources())
         tree_regs = {}
